@@ -189,4 +189,232 @@ def medianIndex (useParam : Bool) (bs : List (Blk × List Nat)) : Option Nat :=
   let s := sortM (medianKeys useParam bs)
   (s[s.length / 2]?).map (·.idx)
 
+
+/-! ### continuation round: more of crossSectionGroupManager.py
+
+Group-bound validation, the whole-list environment-group update, eligibility by flags, the two-pass grouping
+(core blocks, then blueprint-only blocks), the manager-level bookkeeping of `createRepresentativeBlocks`
+(represented / unrepresented groups, `_modifyUnrepresentedXSIDs`), `getNextAvailableXsTypes`, the component
+temperature average with its zero-mass fall-back, nuclide temperatures from the raw per-component terms
+(trace densities), and the area-weighted component average of the 1-D cylinder / slab collections. -/
+
+/-- `_setBuGroupBounds` validation loop (`last` = lastBu, initially 0): false = ValueError -/
+def buBoundsOk : Rat → List Rat → Bool
+  | _, [] => true
+  | last, u :: us => if u ≤ 0 ∨ u > 100 then false else if u < last then false else buBoundsOk u us
+
+/-- `_setTempGroupBounds` validation loop (`last` initially −273.15): false = ValueError -/
+def tempBoundsOk : Rat → List Rat → Bool
+  | _, [] => true
+  | last, u :: us => if u < -27315 / 100 then false else if u < last then false else tempBoundsOk u us
+
+def setBuGroupBounds (bs : List Rat) : Option (List Rat) := if buBoundsOk 0 bs then some bs else none
+def setTempGroupBounds (bs : List Rat) : Option (List Rat) := if tempBoundsOk (-27315 / 100) bs then some bs else none
+
+/-- one block as `_updateEnvironmentGroups` sees it -/
+structure EBlk where
+  bu : Rat
+  /-- the XS settings of the block's CURRENT micro suffix name a temperature isotope -/
+  useTemp : Bool
+  /-- `getBlockNuclideTemperature(block, isotope)` -/
+  tempC : Rat
+  /-- current `envGroupNum` -/
+  env : Nat
+deriving Repr
+
+/-- the assignment inside the loop for one block: none = the `envGroupNum` setter raises RuntimeError (> 52) -/
+def updateOne (bb tb : List Rat) (b : EBlk) : Option Nat :=
+  match envGroupNum b.bu bb b.useTemp b.tempC tb with
+  | none => some b.env
+  | some n => if n > 52 then none else some n
+
+def updateAll (bb tb : List Rat) : List EBlk → Option (List Nat)
+  | [] => some []
+  | b :: bs => match updateOne bb tb b with
+    | none => none
+    | some n => (updateAll bb tb bs).map (n :: ·)
+
+/-- `_updateEnvironmentGroups(blockList)`: the new `envGroupNum` of every block, in order.
+`none` = the `envGroupNum` setter raised RuntimeError (> 52) on some block (blocks before it are already updated
+in the real code; the run is aborted). Disabled updates / a single group leave every block as it is. -/
+def updateEnvironmentGroups (enabled : Bool) (bb tb : List Rat) (bs : List EBlk) : Option (List Nat) :=
+  if !enabled then some (bs.map (·.env)) else updateAll bb tb bs
+
+/-- `ArmiObject.hasFlags(typeSpec)` (non-exact) as used by `getCandidateBlocks`: `none`/empty spec matches every
+block; otherwise a block without flags matches nothing, and a candidate spec matches when ALL its bits are present. -/
+def hasFlagsAny (flags : Nat) (spec : List Nat) : Bool :=
+  if spec.isEmpty then true else spec.any (fun t => if t = 0 then true else if flags = 0 then false else flags &&& t == t)
+
+/-- `BlockCollection.__init__`: `validBlockTypes` None or empty → `_validRepresentativeBlockTypes = None` -/
+def eligible (flags : Nat) (validTypes : List Nat) : Bool := hasFlagsAny flags validTypes
+
+/-- `_getMissingBlueprintBlocks`: blueprint blocks whose suffix is not yet a group (all of them, duplicates included) -/
+def missingBlueprint {β} (key : β → List Nat) (core bp : List β) : List β :=
+  bp.filter (fun b => !((core.map key).contains (key b)))
+
+/-- `makeCrossSectionGroups`: core blocks, then copies of the missing blueprint blocks, sorted by key -/
+def makeGroups {β} (key : β → List Nat) (core bp : List β) : List (List Nat × List β) :=
+  groups key (core ++ missingBlueprint key core bp)
+
+/-- a block as the manager-level bookkeeping sees it: one-letter XS type, environment letter, candidate or not -/
+structure MBlk where
+  xs : Nat
+  env : Nat
+  valid : Bool
+deriving Repr, DecidableEq
+
+def MBlk.key (b : MBlk) : List Nat := [b.xs, b.env]
+
+/-- `createRepresentativeBlocks`: the keys that get a representative block (not pre-generated, ≥ 1 candidate), sorted -/
+def representedKeys (pregen : List Nat → Bool) (bs : List MBlk) : List (List Nat) :=
+  ((groups MBlk.key bs).filter (fun g => !pregen g.1 && g.2.any (·.valid))).map (·.1)
+
+/-- `_unrepresentedXSIDs`: not pre-generated and no candidate block -/
+def unrepresentedKeys (pregen : List Nat → Bool) (bs : List MBlk) : List (List Nat) :=
+  ((groups MBlk.key bs).filter (fun g => !pregen g.1 && !g.2.any (·.valid))).map (·.1)
+
+/-- `_getAlternateEnvGroup`: environment letter of the first represented group with the same XS type -/
+def alternateEnv (reps : List (List Nat)) (t : Nat) : Option Nat :=
+  match reps.find? (fun k => k.head? == some t) with
+  | some [_, e] => some e
+  | _ => none
+
+/-- `_modifyUnrepresentedXSIDs`: blocks of unrepresented groups are moved to a represented environment group of
+their XS type when there is one; every other block keeps its environment group. -/
+def modifyUnrepresented (pregen : List Nat → Bool) (bs : List MBlk) : List MBlk :=
+  let reps := representedKeys pregen bs
+  let unrep := unrepresentedKeys pregen bs
+  bs.map (fun b => if unrep.contains b.key then
+      (match alternateEnv reps b.xs with | some e => { b with env := e } | none => b) else b)
+
+/-- `getNextAvailableXsTypes(howMany, excluded)`: sorted(A–Z a–z minus allocated minus excluded)[:howMany];
+none = ValueError (not enough left). `allocated` = XS types of all blocks (any strings). -/
+def allowableTypes : List Nat := (List.range 26).map (· + 65) ++ (List.range 26).map (· + 97)
+
+def nextAvailableXsTypes (howMany : Nat) (allocated : List (List Nat)) : Option (List Nat) :=
+  let avail := allowableTypes.filter (fun c => !(allocated.contains [c]))
+  if avail.length < howMany then none else some (avail.take howMany)
+
+/-- `getWeight` on the two numbers it reads -/
+def weightOf (useParam : Bool) (vol wparam : Rat) : Rat :=
+  (if useParam then (if wparam = 0 then 1 else wparam) else 1) * (if vol = 0 then 1 else vol)
+
+def zipMul : List Rat → List Rat → List Rat
+  | x :: xs, y :: ys => x * y :: zipMul xs ys
+  | _, _ => []
+
+/-- `_getAverageComponentTemperature`: `ws` = getWeight/height of each candidate (before normalisation),
+`ms` = masses and `ts` = temperatures of the matching components. none = 0/0 (weights sum to zero).
+Zero weighted mass (e.g. a gap): plain arithmetic mean of the temperatures. -/
+def componentTemperature (ws ms ts : List Rat) : Option Rat :=
+  if rsum ws = 0 then none else
+  let wn := ws.map (· / rsum ws)
+  let m := dot wn ms
+  if m = 0 then (if ts.isEmpty then none else some (rsum ts / ts.length))
+  else some (dot wn (zipMul ts ms) / m)
+
+/-- one component's data for one nuclide -/
+structure CompT where
+  /-- `nucName in component.p.numberDensities` -/
+  declared : Bool
+  n : Rat
+  /-- volume fraction of the component in its block -/
+  vf : Rat
+  temp : Rat
+deriving Repr
+
+/-- `TRACE_NUMBER_DENSITY` = 1e-50 -/
+def traceDensity : Rat := 1 / 100000000000000000000000000000000000000000000000000
+
+/-- `getNumberDensitiesWithTrace` for one nuclide: trace only where the nuclide is DECLARED with density 0 -/
+def densWithTrace (c : CompT) : Rat := if c.declared then (if c.n = 0 then traceDensity else c.n) else 0
+
+/-- `getBlockNuclideTemperatureAvgTerms` for one nuclide: (Σ n·vf·vol·T, Σ n·vf·vol) -/
+def blockTempTerms (vol : Rat) (cs : List CompT) : Rat × Rat :=
+  (rsum (cs.map (fun c => densWithTrace c * c.vf * vol * c.temp)), rsum (cs.map (fun c => densWithTrace c * c.vf * vol)))
+
+/-- `getBlockNuclideTemperature` -/
+def blockNuclideTemperature (vol : Rat) (cs : List CompT) : Rat :=
+  let t := blockTempTerms vol cs
+  if t.2 > 0 then t.1 / t.2 else 0
+
+structure TBlk where
+  valid : Bool
+  vol : Rat
+  wparam : Rat
+  comps : List CompT
+deriving Repr
+
+def tcandidates (bs : List TBlk) : List TBlk := bs.filter (·.valid)
+
+/-- `AverageBlockCollection._getNucTempHelper` + `calcAvgNuclideTemperatures` for one nuclide -/
+def avgNuclideTemperature (useParam : Bool) (bs : List TBlk) : Rat :=
+  let cs := tcandidates bs
+  let nvt := rsum (cs.map (fun b => (blockTempTerms b.vol b.comps).1 * weightOf useParam b.vol b.wparam))
+  let nv := rsum (cs.map (fun b => (blockTempTerms b.vol b.comps).2 * weightOf useParam b.vol b.wparam))
+  if nv = 0 then 0 else nvt / nv
+
+/-- `MedianBlockCollection._getNucTempHelper` + `calcAvgNuclideTemperatures`: the median block's own terms -/
+def medianNuclideTemperature (b : TBlk) : Rat :=
+  let t := blockTempTerms b.vol b.comps
+  if t.2 = 0 then 0 else t.1 / t.2
+
+/-- the flattened (member, component) weights and temperatures the average is a mean of -/
+def tempWeights (useParam : Bool) (cs : List TBlk) : List Rat :=
+  cs.flatMap (fun b => b.comps.map (fun c => weightOf useParam b.vol b.wparam * (densWithTrace c * c.vf * b.vol)))
+
+def tempValues (cs : List TBlk) : List Rat := cs.flatMap (fun b => b.comps.map (·.temp))
+
+/-- `_getAverageComponentNucs` of the 1-D cylinder / slab collections for one nuclide: weight = block weight ×
+component area; zero (not an error) when the total weight is not positive. -/
+def areaAverage (bWeights areas xs : List Rat) : Rat :=
+  let ws := zipMul bWeights areas
+  if rsum ws > 0 then dot ws xs / rsum ws else 0
+
+
+/-! ### `_getModifiedReprBlocks`: new XS ids for modified copies of representative blocks -/
+
+/-- `dict[k] = v` on an insertion-ordered dict -/
+def dictSet {α β} [BEq α] (d : List (α × β)) (k : α) (v : β) : List (α × β) :=
+  if d.any (fun p => p.1 == k) then d.map (fun p => if p.1 == k then (k, v) else p) else d ++ [(k, v)]
+
+def dictGet {α β} [BEq α] (d : List (α × β)) (k : α) : Option β := (d.find? (fun p => p.1 == k)).map (·.2)
+
+/-- first loop of `_getModifiedReprBlocks`: `tm` = modifiedBlockXSTypes (orig type → new type), `acc` = origXSIDsFromNew
+(new id → orig id), both insertion-ordered. none = ValueError from `getNextAvailableXsTypes`. -/
+def modifiedIdsLoop (allocated : List (List Nat)) (reps : List (List Nat)) :
+    List MBlk → List (Nat × Nat) → List (List Nat × List Nat) → Option (List (Nat × Nat) × List (List Nat × List Nat))
+  | [], tm, acc => some (tm, acc)
+  | b :: bs, tm, acc =>
+    if !reps.contains b.key then modifiedIdsLoop allocated reps bs tm acc else
+    match dictGet tm b.xs with
+    | some t => modifiedIdsLoop allocated reps bs tm (dictSet acc [t, b.env] b.key)
+    | none =>
+      match nextAvailableXsTypes 1 (allocated ++ tm.map (fun p => [p.2])) with
+      | some (t :: _) => modifiedIdsLoop allocated reps bs (tm ++ [(b.xs, t)]) (dictSet acc [t, b.env] b.key)
+      | _ => none
+
+def modifiedIds (allocated reps : List (List Nat)) (bs : List MBlk) :=
+  modifiedIdsLoop allocated reps bs [] []
+
+
+
+/-! ### `_checkBlockSimilarity` / `_performAverageByComponent` -/
+
+/-- `for c, refC in zip(compFlags, refFlags): if c != refC: return False` — a `zip`: the longer list's tail is never looked at -/
+def zipAllEq : List Nat → List Nat → Bool
+  | x :: xs, y :: ys => x == y && zipAllEq xs ys
+  | _, _ => true
+
+/-- `AverageBlockCollection._checkBlockSimilarity`: component flags (in sorted component order) of every candidate against
+those of the LAST candidate; none = no candidate (the loop variable is unbound) -/
+def blockSimilarity (flagLists : List (List Nat)) : Option Bool :=
+  match flagLists.getLast? with
+  | none => none
+  | some ref => some (flagLists.all (fun fl => zipAllEq fl ref))
+
+/-- `_performAverageByComponent` -/
+def performAverageByComponent (averageByComponent : Bool) (flagLists : List (List Nat)) : Option Bool :=
+  if !averageByComponent then some false else blockSimilarity flagLists
+
 end ArmiVerif.XsGroup
